@@ -145,7 +145,7 @@ func GenSProgram(t *rapid.T, cfg SGenCfg) SProgram {
 				o := SOp{K: "promote", Node: n, N: int64(rapid.IntRange(0, 2).Draw(t, "windowwrites")), Seed: rapid.IntRange(1, 5000).Draw(t, "wseed"), Reps: rapid.IntRange(0, 1).Draw(t, "waligned")}
 				if cfg.W["write"] == 0 {
 					o.N = 0
-				} else if rapid.IntRange(0, 3).Draw(t, "verifyrace") == 0 {
+				} else if rapid.IntRange(0, 1).Draw(t, "verifyrace") == 0 {
 					o.N, o.Str = 0, "verifyrace"
 				}
 				if cfg.RestFail && rapid.IntRange(0, 4).Draw(t, "cpfail") == 0 {
@@ -305,6 +305,18 @@ func GenSProgram(t *rapid.T, cfg SGenCfg) SProgram {
 				o.Fail = rapid.Permutation(seqInts(nodes)).Draw(t, "rvfailperm")[:nf]
 			}
 			p.Ops = append(p.Ops, o)
+		case "unmapsnap":
+			// a volume snapshot, one replica leaves and is rebuilt (it reopens its chain),
+			// then an UNMAP over blocks the snapshot owns: the snapshot keeps its content
+			// on every replica
+			name := fmt.Sprintf("v%d", len(p.Ops))
+			snapNames = append(snapNames, name)
+			off := rapid.Int64Range(0, total-1).Draw(t, "off")
+			l := rapid.Int64Range(1, min64(total-off, 24)).Draw(t, "len")
+			n := rapid.IntRange(0, nodes-1).Draw(t, "node")
+			p.Ops = append(p.Ops, SOp{K: "write", Off: off, Len: l, Seed: rapid.IntRange(1, 250).Draw(t, "seed")}, SOp{K: "snapshot", Name: name},
+				SOp{K: "remove", Node: n}, SOp{K: "reconnect", Node: n}, SOp{K: "add", Node: n}, SOp{K: "promote", Node: n},
+				SOp{K: "unmap", Off: off / 8 * 8, Len: min64((l+15)/8*8, total-off/8*8)}, SOp{K: "read", Off: off, Len: l, Reps: 3})
 		case "revertfail":
 			// a volume snapshot, a write, possibly one replica removed (so that the rest is
 			// exactly the quorum), then a volume revert that fails on one of the replicas
